@@ -205,9 +205,12 @@ func (cm *Manager) ReviseV2Contract(contractID types.FileContractID, revision ty
 		return fmt.Errorf("failed to get existing contract: %w", err)
 	}
 
-	// note: not checking status here since that is only changed after the renewal is confirmed.
+	// note: not checking for the renewed status here since that is only changed after the renewal is confirmed.
 	if existing.RenewedTo != (types.FileContractID{}) {
 		return errors.New("renewed contracts cannot be revised")
+	} else if existing.Status == V2ContractStatusRejected {
+		// the sector roots of a rejected contract are no longer persisted
+		return errors.New("rejected contracts cannot be revised")
 	}
 
 	oldRoots := cm.getSectorRoots(contractID)
@@ -319,7 +322,9 @@ func (cm *Manager) RenewV2Contract(renewal rhp4.TransactionSet, usage proto4.Usa
 	fc := resolution.NewContract
 
 	// sanity checks
-	if fc.Filesize != existing.Filesize {
+	if existing.Status == V2ContractStatusRejected {
+		return errors.New("rejected contracts cannot be renewed")
+	} else if fc.Filesize != existing.Filesize {
 		return errors.New("renewal contract must have same file size as existing contract")
 	} else if fc.Capacity != existing.Capacity {
 		return errors.New("renewal contract must have same capacity as existing contract")
